@@ -243,6 +243,11 @@ Definition pg_update_nodes (G : nxg) (g p : N) (v : pval) : nxg * res :=
       else (mkG (upd_nodes ids p v (gn G)) (ge G), Ok RUnit)
   end.
 
+(* update_node_properties / update_link_properties: node_props.update(props).  A None value in the dictionary is
+   STORED as None ([PNone]) - it never clears a property, so identity properties cannot be removed this way either
+   (C05_identity_kept covers it: [aupdate] keeps every key).  The single-value setters refuse None by
+   `assert prop_val is not None` before anything is looked at; the harness checks that on the real code (raises,
+   store unchanged) and does not pass such calls to the model. *)
 Definition pg_update_node_props (G : nxg) (g n : N) (upd : props) : nxg * res :=
   if ahas k_class upd then (G, Err EQuery) else
   match find_node G g n with
